@@ -87,7 +87,9 @@ CLAIMS: dict[str, tuple[str, str, str, str]] = {
         "indent_cols, marker_tab (+ marker_tab_spellings: the block-quote marker arithmetic depends only on "
         "the absolute column the blank run reaches, at any nesting depth); end to end for the modelled sub-parsers "
         "(Props/C17b.lean q_line_endings, q_nul, l_line_endings, l_nul, mini_*; Props/C17c.lean m_line_endings, m_nul with html_block and lheading: any mixture of line-ending spellings and NUL vs U+FFFD give "
-        "the same token stream, for every source, rule subset and maxNesting; models tied by `miniblock`/`qblock`/`lblock`/`mblock`). PARTIAL: the full tab congruence "
+        "the same token stream, for every source, rule subset and maxNesting; models tied by `miniblock`/`qblock`/`lblock`/`mblock`); Props/C17d.lean full_line_endings, "
+        "full_nul, fullR_line_endings, fullR_nul: the same for MarkdownIt.parse end to end on the modelled sub-language — block tokens, the children of every inline "
+        "token at every depth and, with the reference rule, the env entries recorded (tie `fullparse` / `fullparser`). PARTIAL: the full tab congruence "
         "(every rule depends on a prefix spelling only through getLines; list-marker arithmetic) is not a "
         "theorem and is decided by the oracle, exhaustive over the property's constructed family. That equal "
         "normalize results give equal parses rests on normalize being the first core rule (pinned by T1). "
